@@ -193,9 +193,15 @@ theorem readvertiser_follows_lock_discipline :
     strategy-choice/set, /unset) makes at most ONE mutating call into the RIB / FIB-strategy table, outside any
     loop, and the dataset handlers make none (facts regenerated on every run).  A command implemented as two
     table operations - e.g. re-registration as remove + add - is two critical sections, and by
-    `split_update_allows_torn_lookup` a lookup can see the state between them. -/
+    `split_update_allows_torn_lookup` a lookup can see the state between them.
+
+    Not counted: `table.Rib.CleanUpFace(x)` under `if face.FaceTable.Get(x) == nil` (at most one per handler, only
+    in rib/register).  `FaceTable.Remove` deletes the face from the face table before it cleans the RIB, so a
+    handler that finds its face gone after the insertion repeats that face's (idempotent) teardown clean-up: the
+    state between the two calls is that of the order "command, teardown", not a torn one. -/
 theorem one_command_is_one_table_operation :
     Ndn.Gen.C16.mgmtHandlers.all (fun m => m.fibCalls ≤ 1 && m.fibCallsInLoop == 0 && (m.name != "list" || m.fibCalls == 0)) = true ∧
+    Ndn.Gen.C16.mgmtGuardedCleanups.all (fun c => c.1 == "RIBModule" && c.2.1 == "register" && c.2.2 ≤ 1) = true ∧
     [("RIBModule", "register"), ("RIBModule", "unregister"), ("FIBModule", "add"), ("FIBModule", "remove"),
      ("StrategyChoiceModule", "set"), ("StrategyChoiceModule", "unset")].all
       (fun p => Ndn.Gen.C16.mgmtHandlers.any fun m => m.typ == p.1 && m.name == p.2 && m.fibCalls == 1) = true := by
